@@ -137,7 +137,7 @@ def storage_image(storage):
     return img
 
 
-def probe_driver(storage, x, subset, use_storage, direct, n, seen_classes, persistent=None):
+def probe_driver(storage, x, subset, use_storage, direct, n, seen_classes, persistent=None, xobj=None):
     def driver(run):
         from ixai.imputer import TreeImputer
         if persistent is not None:      # ONE imputer object used over the whole stream (before and after drifts)
@@ -146,7 +146,7 @@ def probe_driver(storage, x, subset, use_storage, direct, n, seen_classes, persi
         else:
             model = LogModel()
             imp = TreeImputer(model, storage_object=storage, direct_predict_numeric=direct, use_storage=use_storage)
-        xin = dict(x)
+        xin = dict(x) if xobj is None else xobj     # xobj: a caller-owned dict (content == x) that is re-used between calls
         sub = list(subset)
         preds = imp.impute(feature_subset=sub, x_i=xin, n_samples=n)
         where = (f"TreeImputer(use_storage={use_storage}, direct_predict_numeric={direct}).impute({subset}, x={x}, "
@@ -213,6 +213,7 @@ def run_word(cfg, word, seed, do_probe, stats):
     from ixai.imputer import TreeImputer
     pm = LogModel()
     persistent = (TreeImputer(pm, storage_object=storage, direct_predict_numeric=False, use_storage=True), pm)
+    xbuf = {}
     for bi, (concept, m) in enumerate(word):
         for x in gen_block(concept, m, seed, t):
             if cfg.get('rep') == 'bigint':
@@ -226,6 +227,16 @@ def run_word(cfg, word, seed, do_probe, stats):
                 stats['probe_execs'] += 1
                 if v_ is not None:
                     raise v_
+                # ... and on ONE caller-owned instance dict that is overwritten in place between consecutive calls (earlier
+                # arrivals, then the current one; no storage update in between): routing follows the content
+                for src in (arrivals[t // 2], arrivals[-1], arrivals[t // 3], x):
+                    xbuf.clear()
+                    xbuf.update(src)
+                    run_, res_, v_ = choice.execute(probe_driver(storage, dict(xbuf), sub, True, False, 1 + (t // 4) % 2,
+                                                                 classes, persistent, xbuf), (), None, False)
+                    stats['probe_execs'] += 1
+                    if v_ is not None:
+                        raise v_
             storage.update(x)
             arrivals.append(x)
             classes.add(x['c1'])
